@@ -25,6 +25,9 @@ class S(vlib.Spec):
         7: "an optional field holding a value different from its default reports itself as not set",
         8: "the generated packages do not compile under an option set the property names although every initializer has a value",
         10: "a value of the wrong kind for a scalar or struct type was accepted",
+        11: "history: after an in-place edit of another instance a freshly constructed struct does not hold the declared defaults",
+        12: "history: a default written as a reference to a container / struct / binary constant shares the constant's storage between instances",
+        13: "history: after an in-place edit of another instance the getter of an unset optional field does not return the declared default",
     }
     modelled = ("generator/golang/resolver.go: ResolveConst / resolveConst, onBool, onInt, onDouble, onStrBin, onEnum, onSetOrList, "
                 "onMap, onStructLike, getIDValue, getStructLike, bin2str; generator/golang/thrift.go: NeedRedirect, SupportIsSet, "
@@ -62,6 +65,10 @@ class S(vlib.Spec):
         case = case or {}
         if code == 3:
             return "C06-double-negative-zero-loses-sign"
+        if code == 12:
+            return "C06-history-default-by-identifier-shares-constant-storage"
+        if code in (11, 13):
+            return "C06-history-%s-%s" % ("fresh-struct-shares-storage" if code == 11 else "getter-unset-shares-storage", case.get("script") or "?")
         if code == 8:
             return "C06-generated-code-does-not-compile-%s" % (case.get("options") or "default").replace(",", "+")
         names = {2: "constant-value", 4: "new-or-initdefault-value", 5: "initdefault-differs-from-new", 6: "getter-unset-not-default",
